@@ -65,6 +65,13 @@ def _roles(fn: FuncInfo) -> Dict[str, str]:
             roles.setdefault(n.target.id, "chunk")
         if isinstance(n, ast.Call) and isinstance(n.func, ast.Name) and n.func.id == "safe_decode" and n.args and isinstance(n.args[0], ast.Name):
             roles.setdefault(n.args[0].id, "data")
+        # the two counters: the variable compared with the corresponding limit parameter
+        if isinstance(n, ast.Compare) and len(n.ops) == 1 and isinstance(n.left, ast.Name) and isinstance(n.comparators[0], ast.Name):
+            lim = n.comparators[0].id
+            if lim == "max_form_parts":
+                roles.setdefault(n.left.id, "form_parts_count")
+            elif lim == "max_form_memory_size":
+                roles.setdefault(n.left.id, "form_memory_size_count")
     return roles
 
 
